@@ -783,6 +783,10 @@ _DOC = "src/odfdo/document.py"
 _XP = "src/odfdo/xmlpart.py"
 _EL = "src/odfdo/element.py"
 SEEDS = [
+    Seed("_parse_folder walks into the bare entry name", "fault", "src/odfdo/container.py",
+         "                sub_parts = self._parse_folder(str(relative_path))", "                sub_parts = self._parse_folder(path.name)", "R10k"),
+    Seed("_parse_folder walks into the posix form of the relative path", "neutral", "src/odfdo/container.py",
+         "                sub_parts = self._parse_folder(str(relative_path))", "                sub_parts = self._parse_folder(relative_path.as_posix())"),
     Seed("Table.append_cell no longer copies the cell it then attaches with clone=False", "fault", _T,
          "        if clone:\n            cell = cell.clone\n        y = self._translate_y_from_any(y)\n        row = self._get_row2(y)", "        y = self._translate_y_from_any(y)\n        row = self._get_row2(y)", "R10h"),
     Seed("Row.append_cell copies the cell only when no repeat was handed in", "fault", _R,
